@@ -534,4 +534,8 @@ def fallback(sess):
             r = native('n_c06', 'search', {'layer': layer, 'fn': fn})
             r['what'] = f'n_c06.search[{layer}.{fn}]'
             out.append(r)
+    # call histories on one object (a remembered board state must not go stale): the board-state oracle of C16
+    r = native('n_c16', 'search', {'what': 'motors'})
+    r['what'] = 'n_c16.search[motors, incl. three-request histories]'
+    out.append(r)
     return out
